@@ -388,7 +388,7 @@ func c16Caps(c *Ctx) {
 	for _, fn := range c.P.LibFns {
 		ir.EachInstr(fn, func(_ *ssa.BasicBlock, _ int, in ssa.Instruction) {
 			if st, ok := in.(*ssa.Store); ok {
-				if f, _, ok := ir.FieldOf(st.Addr); ok && f.Struct == initRes && f.Name == "Capabilities" && !strings.Contains(c.P.File(fn.Pos()), "mcp_messages") {
+				if f, _, ok := ir.FieldOf(st.Addr); ok && f.Struct == initRes && f.Name == "Capabilities" && !(fn.Signature.Recv() == nil && fn.Object() != nil && fn.Object().Exported()) {
 					builder = fn
 				}
 			}
@@ -667,11 +667,12 @@ func c16Clients(c *Ctx) {
 		c.R.Break("expected at least two Connector implementations, found %d", len(impls))
 	}
 	// transport sends: library functions named by the transport interface's send methods
-	trIface := c.P.RootNamed("transport")
+	trIface := c.transportIface()
 	sendFns := map[*ssa.Function]bool{}
 	if trIface != nil {
 		for _, T := range c.P.Implementers(trIface.Underlying().(*types.Interface)) {
-			for _, m := range []string{"sendRequest", "sendNotification"} {
+			tri := trIface.Underlying().(*types.Interface)
+			for _, m := range []string{ifaceMethodTaking(tri, "*mcp.JSONRPCRequest"), ifaceMethodTaking(tri, "*mcp.JSONRPCNotification")} {
 				if f := c.P.Method(T, m); f != nil {
 					sendFns[f] = true
 				}
